@@ -69,7 +69,7 @@ Lemma mutate_users_inv : forall maxl f users ra f' ra',
     let es := old ++ List.map user_to_entry users in
     ensure_homes maxl f1 es = FOk f2 /\
     openfile maxl maxl f2 etc_passwd create_perm = FOk (f3, i) /\
-    f' = upd f3 i (fun n => with_data n (write_users es)) /\
+    f' = upd f3 i (fun n => trunc_write n (write_users es)) /\
     RunAsResolved ra es ra'.
 Proof.
   intros maxl f users ra f' ra' H. unfold mutate_users in H.
@@ -91,7 +91,7 @@ Lemma mutate_groups_inv : forall maxl f groups f',
     read_or_create maxl f etc_group group_open_perm = FOk (f1, txt) /\
     parse_groups txt = Some old /\
     openfile maxl maxl f1 etc_group create_perm = FOk (f2, i) /\
-    f' = upd f2 i (fun n => with_data n (write_groups (old ++ List.map group_to_entry groups))).
+    f' = upd f2 i (fun n => trunc_write n (write_groups (old ++ List.map group_to_entry groups))).
 Proof.
   intros maxl f groups f' Hne H. unfold mutate_groups in H.
   destruct groups as [|g gs]; [contradiction|].
